@@ -742,7 +742,17 @@ func runShutdown(c *Case) ([]Obs, any) {
 				rec.mu.Unlock()
 				return o
 			case "counts":
+				// reported once unchanged for 150 ms (the counters are incremented inside the goroutines)
 				in, pr, _ := node.VerifCounts()
+				stable := time.Now()
+				deadline := time.Now().Add(2 * time.Second)
+				for time.Now().Before(deadline) && time.Since(stable) < 150*time.Millisecond {
+					time.Sleep(5 * time.Millisecond)
+					i2, p2, _ := node.VerifCounts()
+					if i2 != in || p2 != pr {
+						in, pr, stable = i2, p2, time.Now()
+					}
+				}
 				return Obs{OK, in, pr}
 			case "drain":
 				ch := node.VerifTxChannel()
